@@ -18,6 +18,8 @@ BODIES = {
  "notes": "para[^f] and cite[#k] and [#undef].\n\n[^f]: note\n\n[#k]: Knuth\n",
  "lists": "* a\n* b\n\n> quote 'single'\n\n    code\n",
  "plainp": "Just one paragraph.\n",
+ "mail": "Write to <user@example.com> or <mailto:other@example.org> today.\n\n# Contact #\n\n<second@example.net>\n",
+ "keylike": "Note: this first paragraph starts like a metadata key\nSecond: line\n\n# Head #\n\ntext\n",
  "table": "| a | b |\n|---|---|\n| c | d |\n\n### Deep ###\n\n*em* **st**\n",
 }
 
@@ -42,13 +44,17 @@ def run(tier, seed):
         bodies["c_" + nm.replace(" ", "_")] = b
     exts = [("std", docs.STD), ("nosmart", E["NOTES"] | E["CRITIC"]), ("nolabels", docs.STD | E["NO_LABELS"])]
     exe = build.build_harness("asan")
-    cases = [(bn, bi) for bn in bodies for bi in range(len(blocks))]
+    cases = [(bn, bi) for bn in bodies for bi in range(len(blocks)) if not (bn == "keylike" and not blocks[bi]["m"])]      # without a block before it, 'Note: ...' IS metadata
     if tier == "quick": cases = [c for c in cases if c[0] in BODIES or c[1] % 7 == 0]
     segs = []; per = 6
     for i in range(0, len(cases), per):
         s = ["seg\twrap", "wantout\t1"]
         for j, (bn, bi) in enumerate(cases[i:i + per]):
-            blk = blocks[bi]; src = ((blk["yamlsrc"] if (i + j) % 5 == 0 and blk["m"] else blk["src"]) + bodies[bn]).encode("utf-8")
+            blk = blocks[bi]; bsrc = blk["yamlsrc"] if (i + j) % 5 == 0 and blk["m"] else blk["src"]
+            if blk["m"]:
+                # the line that ends the block is blank: empty, or white space only (spaces, a tab)
+                bsrc = bsrc[:-1] + ["\n", " \n", "\t\n", "  \t\n", "\n"][(i + j) % 5]
+            src = (bsrc + bodies[bn]).encode("utf-8")
             s.append(line("src", "w%d" % j, sx(src)))
             for f in FM:
                 xn, x = exts[(i + j) % 3]
@@ -75,7 +81,7 @@ def run(tier, seed):
     acc, rejected, states, info = tlc.validate_trace("WrapperTrace", os.path.join(VERIF, "spec", "WrapperTrace.cfg"), trace, max_rejects=40, timeout=1500)
     chk.add("traces_validated_against_impl", len(segs) - len(problems))
     chk.cov["evaluations"] = n * 3; chk.cov["distinct_nontrivial"] = len(cases)
-    chk.cov["rule"] = "cases = bodies (5 hand-written + corpus bodies) x metadata blocks (every ordered block of <= %d of 12 keys; simulated up to 5; every 5th YAML-fenced) x 4 formats x {default, --full, --snippet} with a rotating extension set" % (2 if tier == "quick" else 3)
+    chk.cov["rule"] = "cases = bodies (7 hand-written, among them e-mail autolinks and a first paragraph that looks like a key; the blank line after the block spelled '', ' ', tab, '  tab' + corpus bodies) x metadata blocks (every ordered block of <= %d of 12 keys; simulated up to 5; every 5th YAML-fenced) x 4 formats x {default, --full, --snippet} with a rotating extension set" % (2 if tier == "quick" else 3)
     chk.sample(dict(block=blocks[20]["src"], body="heads")); chk.sample(dict(block=gs.printed[-1]["src"]))
     seen = {}
     for seg, idx in rejected:
